@@ -22,11 +22,17 @@ class FormulaGen(object):
     self.shapes = {}
 
   def _cols(self, t, pred=None):
-    return [c for c in t['cols'] if vis(c) and (pred is None or pred(c))]
+    sc = getattr(self, 'self_col', None)
+    return [c for c in t['cols'] if vis(c) and (pred is None or pred(c)) and not (sc and c['id'] == sc)]
 
   def _col(self, t, pred=None):
     cs = self._cols(t, pred)
     return self.r.choice(cs)['id'] if cs else None
+
+  def _key_col(self, t):
+    """A column whose values are hashable scalars (usable as a plain lookup key)."""
+    return self._col(t, lambda c: c['type'].split(':')[0] in ('Int', 'Numeric', 'Text', 'Bool', 'Choice', 'Date',
+                                                              'DateTime', 'Ref') and not c['isFormula'])
 
   def trigger_formula(self, m, t):
     r = self.r
@@ -40,8 +46,11 @@ class FormulaGen(object):
                '($%s or 0) * 10 if isinstance($%s, (int, float)) and not isinstance($%s, bool) else -1' % (a, a, a)]
     return r.choice(opts)
 
-  def formula(self, m, t):
+  def formula(self, m, t, self_col=None):
+    """self_col: id of the column being (re)defined, excluded from the columns the formula reads
+    unless cycles are wanted (kind 'cycle' adds them deliberately)."""
     r = self.r
+    self.self_col = self_col if 'self_ref' in self.off else None
     for _ in range(20):
       kind = r.choice(self.KINDS)
       if kind in self.off:
@@ -124,7 +133,7 @@ class FormulaGen(object):
 
   def f_lookup(self, m, t):
     o = self._other(m)
-    a = self._col(t)
+    a = self._key_col(t) if 'list_keys' in self.off else self._col(t)
     if not o or not a:
       return None
     oc = self._col(o)
@@ -139,7 +148,7 @@ class FormulaGen(object):
 
   def f_lookup_order(self, m, t):
     o = self._other(m)
-    a = self._col(t)
+    a = self._key_col(t) if 'list_keys' in self.off else self._col(t)
     if not o or not a:
       return None
     oc = self._col(o)
@@ -155,7 +164,7 @@ class FormulaGen(object):
     ])
 
   def f_lookup_contains(self, m, t):
-    a = self._col(t)
+    a = self._key_col(t) if 'list_keys' in self.off else self._col(t)
     if not a:
       return None
     cands = []
@@ -173,7 +182,7 @@ class FormulaGen(object):
 
   def f_lookup_one(self, m, t):
     o = self._other(m)
-    a = self._col(t)
+    a = self._key_col(t) if 'list_keys' in self.off else self._col(t)
     if not o or not a:
       return None
     oc = self._col(o)
